@@ -332,6 +332,7 @@ var strPool = []string{
 	"aaaaaaaaaaaaaaaaaaaaaaaaaaaaaaaaaaaaaaaaaaaaaaaaaaaaaaaaaaaaaaaa",  // 64
 	"aaaaaaaaaaaaaaaaaaaaaaaaaaaaaaaaaaaaaaaaaaaaaaaaaaaaaaaaaaaaaaaaa", // 65
 	"2021-06-28T10:11:12Z", "ISODate", "cnt", "e", "E5", "x+", "x-",
+	"\ufb01le", "\ufeffabc", "\ufffdabc", "\uffe5", // first byte 0xEF: the BOM rule of Parse at top level
 }
 
 type treeGen struct {
